@@ -227,6 +227,33 @@ def exc(run, p, fc):
             n += 1
             ok = _reports_failure(h.body, f.node)
             how = 'reports a failure'
+            if not ok:
+                # the handler binds a positive count to a name, and what follows the try adds that name to the failure count
+                bound = set()
+                for st in h.body:
+                    if isinstance(st, ast.Assign) and len(st.targets) == 1:
+                        tg, v = st.targets[0], st.value
+                        pairs = [(tg, v)]
+                        if isinstance(tg, (ast.Tuple, ast.List)) and isinstance(v, (ast.Tuple, ast.List)) and len(tg.elts) == len(v.elts):
+                            pairs = list(zip(tg.elts, v.elts))
+                        for a, b in pairs:
+                            if isinstance(a, ast.Name) and isinstance(b, ast.Constant) and isinstance(b.value, int) and not isinstance(b.value, bool) and b.value > 0:
+                                bound.add(a.id)
+                if bound:
+                    for owner in ast.walk(f.node):
+                        for fld in ('body', 'orelse', 'finalbody'):
+                            blk = getattr(owner, fld, None)
+                            if not isinstance(blk, list):
+                                continue
+                            for i, st in enumerate(blk):
+                                if isinstance(st, ast.Try) and h in st.handlers:
+                                    for nx in blk[i + 1:i + 3]:
+                                        if isinstance(nx, ast.AugAssign) and isinstance(nx.op, ast.Add) and norm(nx.target) == 'failures' \
+                                                and isinstance(nx.value, ast.Name) and nx.value.id in bound:
+                                            ok = True
+                                            how = 'counts one failure (%s, added to the failure count after the try)' % nx.value.id
+                                        if any(isinstance(x, ast.Name) and x.id in bound and isinstance(x.ctx, ast.Store) for x in ast.walk(nx)):
+                                            break
             for s in ast.walk(h):
                 if isinstance(s, ast.Return) and isinstance(s.value, ast.Call):
                     # return self.helper(...): a helper of the class all of whose returns report one failure
